@@ -220,6 +220,11 @@ func runWorker(a lib.Args, wi int) {
 		if !okRun {
 			stat.dropped++
 		}
+		if stat.dropped >= 8 && stat.dropped*2 > stat.histories {
+			// most histories cannot be recorded: more of them will not change the verdict
+			fmt.Printf("NOTE worker %d gave up after %d histories, %d of them not recordable\n", wi, stat.histories, stat.dropped)
+			break
+		}
 	}
 	if a.Replay == "" {
 		r := lib.NewRng(a.Seed*31 + uint64(wi))
@@ -618,6 +623,9 @@ func runHistory(w *lib.Writer, hs *histScript) bool {
 				tags["real3s"] = true
 				target := ntp.TimeFromTime64(before.cTx, realNow()).Add(3*time.Second + 20*time.Millisecond)
 				if d := target.Sub(realNow()); d > 0 {
+					if d > 4*time.Second {
+						d = 4 * time.Second // whatever the client stored, the harness does not wait longer
+					}
 					time.Sleep(d)
 				}
 			}
@@ -825,7 +833,19 @@ func runHistory(w *lib.Writer, hs *histScript) bool {
 			default:
 				resStr = lib.L("3")
 			}
-			attOut = append(attOut, lib.L(lib.I(int64(al.srv+1)), lib.U(uint64(al.req.LVM)), t64s(al.req.OriginTime), t64s(al.req.ReceiveTime), t64s(al.req.TransmitTime), resStr))
+			// the receive time the client worked with cannot precede the departure of the
+			// first datagram of this attempt
+			rxok := true
+			if (accepted || at.hasRecv) && len(al.dgrams) > 0 {
+				first := al.dgrams[0].sendReal
+				for _, d := range al.dgrams {
+					if d.sendReal.Before(first) {
+						first = d.sendReal
+					}
+				}
+				rxok = !crxT.Before(first.Add(-time.Microsecond))
+			}
+			attOut = append(attOut, lib.L(lib.I(int64(al.srv+1)), lib.Bool(rxok), lib.U(uint64(al.req.LVM)), t64s(al.req.OriginTime), t64s(al.req.ReceiveTime), t64s(al.req.TransmitTime), resStr))
 			if al.req.ReceiveTime != (ntp.Time64{}) {
 				tags["ireq"] = true
 			}
